@@ -238,6 +238,12 @@ def parse_pred(node, frame, resolve):
         r = resolve(node)
         if isinstance(r, frozenset):
             return set(r)
+    # masks[r] with  masks = {k: df["C"] == k for k in ...}: the predicate of the map with the key put in
+    if isinstance(node, ast.Subscript) and isinstance(node.value, ast.Name):
+        r = resolve(node.value)
+        if isinstance(r, tuple) and r[:1] == ("predmap",):
+            key = resolve(node.slice)
+            return {(c, op, key if v == ("compvar", r[1]) else v) for c, op, v in r[2]}
     return None
 
 
